@@ -1479,8 +1479,30 @@ impl<'a> Model<'a> {
                 let want = String::from_utf8_lossy(&seg.alts[0]).to_string();
                 let n = seg.alts[0].len().max(1) + 8;
                 let got = String::from_utf8_lossy(&rest[..rest.len().min(n)]).to_string();
+                // a value item whose bytes are not even a well-formed number token is a
+                // layout problem (wrong device, missing sign/space), not a wrong value
+                let mut class = Self::class_of_tag(seg.tag);
+                let numeric = seg.alts[0].len() >= 3
+                    && (seg.alts[0][0] == b' ' || seg.alts[0][0] == b'-')
+                    && *seg.alts[0].last().unwrap() == b' '
+                    && seg.alts[0][1..seg.alts[0].len() - 1]
+                        .iter()
+                        .all(|c| c.is_ascii_digit());
+                if numeric && matches!(seg.tag, Tag::Var | Tag::Err | Tag::FileValue) {
+                    let mut j = 0;
+                    let mut ok = !rest.is_empty() && (rest[0] == b' ' || rest[0] == b'-');
+                    j += 1;
+                    let d0 = j;
+                    while ok && j < rest.len() && rest[j].is_ascii_digit() {
+                        j += 1;
+                    }
+                    ok = ok && j > d0 && j < rest.len() && rest[j] == b' ';
+                    if !ok {
+                        class = Class::Layout;
+                    }
+                }
                 self.diverge(
-                    Self::class_of_tag(seg.tag),
+                    class,
                     Some(stmt),
                     format!(
                         "{:?} byte {}: expected {:?} ({:?}), got {:?}",
